@@ -63,11 +63,7 @@ def tuple_field_of_call(body, op, call_t, depth=8):
 def run(ctx):
     # the fingerprint in the header is the fingerprint of the fullnames the parser resolves (shared with C07 / C08)
     from . import c07
-    rn_ = fn_by_label(ctx.f, c07.PM + 'SchemaConstructionState::register_node')
-    if rn_ is not None:
-        fam_ = [rn_] + ctx.f.closures_of(rn_)
-        c07.nsarg(ctx, rn_, fam_)
-        c07.namekey(ctx, rn_, fam_)
+    c07.resolution_rules(ctx)
     f = ctx.f
     w = fn_by_label(f, 'single_object_encoding::to_single_object')
     if w is None:
@@ -222,8 +218,13 @@ def run(ctx):
     header_rule(ctx)
     # the fingerprint stamped / verified is the one computed from the node graph at freeze; the builder type has no
     # cached state that could go stale (shared with C08)
-    from .c08 import source
+    from .c08 import source, canon, crc
     source(ctx)
+    # "a message written under a schema with a different canonical form is never decoded" holds only as far as the
+    # eight bytes compared are the CRC-64-AVRO of the canonical form: the canonical-form writer (first occurrence of a
+    # named type keyed by its node, fullnames, per-kind templates) and the CRC are C08's rules, shared here
+    canon(ctx)
+    crc(ctx)
     # fingerprint is 8 bytes
     fns = [v_ for k, v_ in f.fns.items() if strip_generics(k).endswith('Schema::rabin_fingerprint')]
     ctx.ob('PAIR', 'fingerprint-8-bytes', bool(fns) and '[u8; 8]' in fns[0].get('output', ''), None, 'rabin_fingerprint returns %s' % (fns[0].get('output') if fns else None), nontrivial=False)
